@@ -64,12 +64,12 @@ def compare(impl_path, model_path, tol=1e-9, tol_solve=1e-7, skip_labels=(), con
             if base in skip_labels: continue
             if base == "crash": rep["crashed"].append(c); continue
             t = tol_solve if base in SOLVE_LABELS else tol
-            if base in SOLVE_LABELS and ("i", seq, "cond") in M:
+            if (base in SOLVE_LABELS or base == "LtL") and ("i", seq, "cond") in M:
                 cnd = tonum(M[("i", seq, "cond")][0])
                 if cnd is None or not math.isfinite(cnd) or cnd > cond_max:
                     rep["discarded_ill_conditioned"] += 1; continue
                 rep["max_cond"] = max(rep["max_cond"], cnd)
-                t = t * max(1.0, cnd / 100.0)
+                if base in SOLVE_LABELS: t = t * max(1.0, cnd / 100.0)
             mk = ("o", seq, label)
             if mk in M:
                 rep["corr_lines"] += 1
